@@ -2,7 +2,9 @@
 
 A *scenario* is: parameters (keep_last_and_best_only, two file-name formats, best_is_train, optional
 extra TrainingStateParams, a user entry, explicit `epoch=` argument), a metric history (one
-(train, val) pair per epoch, on a 3-decimal grid), and a crash schedule [(epoch, k, torn[, soft]), ...]:
+(train, val) pair per epoch; an entry is None = inf, an int = thousandths — the 3-decimal grid of the
+first rounds —, or a float = the metric itself, any magnitude, on or off the grid of the 5 significant
+digits the history file records: `mval`, `recorded_value`), and a crash schedule [(epoch, k, torn[, soft]), ...]:
 session i starts a NEW controller on the files left behind, loads the last recorded epoch, trains
 on, and is killed at mutating call number k of the update for `epoch` (session i never reaches that
 point -> it simply completes); `torn`: call k is executed half-way when it is a torch.save or the
@@ -38,6 +40,24 @@ def uninterrupted_states(n):
     for e in range(1, n + 1):
         out.append(train_step(e, *out[-1]))
     return out
+
+
+def mval(v):
+    """A metric entry of a case -> the float handed to update_for_epoch: None = inf; an int = thousandths
+    (3-decimal grid in [0.1, 1): the value survives the history file unchanged); a float = itself."""
+    if v is None:
+        return float("inf")
+    if isinstance(v, int):
+        return v / 1000.0
+    return float(v)
+
+
+HIST_METRIC_FMT = "{:.4e}"      # the documented format of the metric columns: 5 significant digits
+
+
+def recorded_value(x):
+    """What the history file holds for a metric x (and what any controller started later knows of it)."""
+    return float(HIST_METRIC_FMT.format(x))
 
 
 _MODEL_CLS = []
@@ -204,7 +224,7 @@ def names(case, n):
     infos = [{"epoch": 0, "train_met": inf, "val_met": inf}]
     for e in range(1, n + 1):
         tm, vm = case["vals"][e - 1]
-        infos.append({"epoch": e, "train_met": tm / 1000.0, "val_met": vm / 1000.0 if vm is not None else inf})
+        infos.append({"epoch": e, "train_met": mval(tm), "val_met": mval(vm)})
     infos.append({"epoch": n + 1, "train_met": -1.0 - n, "val_met": -1.0 - n})
     return [mf.format(**i) for i in infos], [of.format(**i) for i in infos]
 
@@ -241,12 +261,20 @@ def keys_of(nm):
     return out
 
 
+_PARAMS = {}
+
+
 def make_params(case):
+    """TrainingStateParams of a scenario (the controller only reads them: one object per distinct setting)."""
     from pydrobert.torch import training
-    return training.TrainingStateParams(
-        keep_last_and_best_only=bool(case["keep_lb"]),
-        saved_model_fmt=case["model_fmt"], saved_optimizer_fmt=case["optim_fmt"],
-        **case.get("extra_params", {}))
+    key = json.dumps([bool(case["keep_lb"]), case["model_fmt"], case["optim_fmt"], case.get("extra_params", {})],
+                     sort_keys=True)
+    if key not in _PARAMS:
+        _PARAMS[key] = training.TrainingStateParams(
+            keep_last_and_best_only=bool(case["keep_lb"]),
+            saved_model_fmt=case["model_fmt"], saved_optimizer_fmt=case["optim_fmt"],
+            **case.get("extra_params", {}))
+    return _PARAMS[key]
 
 
 _CONTENT_CACHE = {}
@@ -461,7 +489,7 @@ def session(case, ws, crash=None, record=None, ref=None):
                 if case.get("explicit_epoch"):
                     kw["epoch"] = e
                 try:
-                    ctrl.update_for_epoch(m, o, tm / 1000.0, vm / 1000.0 if vm is not None else float("inf"),
+                    ctrl.update_for_epoch(m, o, mval(tm), mval(vm),
                                           best_is_train=bool(case.get("best_is_train", False)), **kw)
                 except Crash:
                     out["crashed"] = True
